@@ -37,7 +37,39 @@ ASSUMPTIONS = ["libstdc++ 12 <algorithm>/<numeric> on raw pointers is the refere
                "numeric folds are run on values far from overflow"]
 TRUSTED = ["hand model Tetl/C06/Model/*.lean tied to the source by the correspondence run (R1) on every run",
            "spec Tetl/C06/Spec.lean validated against libstdc++ (R2) on every run"]
-THEOREMS = {}
+_T = "Tetl.C06.Props."
+THEOREMS = {op: [_T + t for t in ts] for op, ts in {
+    "find": ["find_eq"], "find_if": ["findIf_eq"], "find_if_not": ["findIfNot_eq"], "all_of": ["allOf_eq"],
+    "any_of": ["anyOf_eq"], "none_of": ["noneOf_eq"], "count": ["count_eq"], "count_if": ["countIf_eq"],
+    "for_each": ["forEach_eq"], "for_each_n": ["forEachN_eq"], "copy_n": ["copyN_eq"], "transform": ["transform1_eq"],
+    "transform2": ["transform2_eq"], "copy_if": ["copyIf_eq"], "remove_copy_if": ["removeCopyIf_eq"],
+    "remove_copy": ["removeCopy_eq"], "partition_copy": ["partitionCopy_eq"], "reverse_copy": ["reverseCopy_eq"],
+    "partition_point": ["partitionPoint_eq"], "is_partitioned": ["isPartitioned_eq"], "find_first_of": ["findFirstOf_eq"],
+    "rotate": ["rotate_eq"], "rotate_copy": ["rotateCopy_eq"], "reverse": ["reverseRA_eq", "reverseBidi_eq"],
+    "lower_bound": ["lowerBound_eq"], "upper_bound": ["upperBound_eq"], "equal_range": ["equalRange_eq"],
+    "binary_search": ["binarySearch_eq"], "mismatch": ["mismatch3_eq", "mismatch4_eq"],
+    "equal": ["equal3_eq", "equal4RA_eq", "equal4Fwd_eq"], "lexicographical_compare": ["lexicographicalCompare_eq"],
+    "accumulate": ["accumulate_eq"], "reduce": ["reduce_eq"], "transform_reduce1": ["transformReduce1_eq"],
+    "inner_product": ["innerProduct_eq"], "transform_reduce": ["transformReduce2_eq"],
+    "adjacent_difference": ["adjacentDifference_eq"], "partial_sum": ["partialSum_eq"], "iota": ["iota_eq"],
+    "min": ["min2_eq"], "max": ["max2_eq"], "minmax": ["minmax2_eq"], "clamp": ["clamp_eq"],
+    "remove_if": ["removeIf_eq"], "remove": ["remove_eq"], "unique": ["unique_eq"], "unique_copy": ["uniqueCopy_eq"],
+    "fill": ["fill_eq"], "fill_n": ["fillN_eq"], "generate": ["generate_eq"], "generate_n": ["generateN_eq"],
+    "replace_if": ["replaceIf_eq"], "replace": ["replace_eq"], "swap_ranges": ["swapRanges_eq"],
+    "copy": ["copy_eq"], "move": ["copy_eq"], "copy_backward": ["copyBackward_eq"], "move_backward": ["copyBackward_eq"],
+    "shift_left": ["shiftLeftRA_eq", "shiftLeftFwd_eq"], "shift_right": ["shiftRight_eq"],
+    "adjacent_find": ["adjacentFind_eq"], "is_sorted_until": ["isSortedUntil_eq"], "is_sorted": ["isSorted_eq"],
+    "min_element": ["minElement_eq"], "max_element": ["maxElement_eq"], "minmax_element": ["minmaxElement_eq"],
+    "search": ["search_eq"], "find_end": ["findEnd_eq"], "search_n": ["searchN_eq"],
+    "is_permutation": ["isPermutation3_eq", "isPermutation4_eq", "isPermutation_spec_iff_perm"], "includes": ["includes_eq"],
+    "partition": ["partition_eq"], "stable_partition": ["stablePartition_eq"],
+    "sort": ["sort_eq"], "gnome_sort": ["gnomeSort_eq"], "bubble_sort": ["bubbleSort_eq"], "exchange_sort": ["exchangeSort_eq"],
+    "nth_element": ["nthElement_eq", "sorted_split"], "partial_sort": ["partialSort_eq", "sorted_split"],
+    "stable_sort": ["stableSort_eq", "stableSort_characterisation"],
+    "insertion_sort": ["insertionSort_eq", "stableSort_characterisation"],
+    "merge_sort": ["mergeSort_eq", "stableSort_characterisation"], "inplace_merge": ["inplaceMerge_eq", "inplaceMerge_stable"],
+    "merge": ["merge_eq"], "set_difference": ["setDifference_eq"], "set_intersection": ["setIntersection_eq"],
+    "set_symmetric_difference": ["setSymmetricDifference_eq"], "set_union": ["setUnion_eq"]}.items()}
 SEARCH_CAP = 900000
 
 CMPS = ["dflt", "less", "greater", "mod3"]
@@ -431,25 +463,25 @@ CLAIMED = True
 TECHNIQUE = ("Lean 4 proof: hand model (checked reads/writes confined to the given range) = declarative spec for all inputs; "
              "model tied to the code by exhaustive small-scope + random correspondence run against tetl and libstdc++")
 LEVEL_TEXT = ("Every function of etl/algorithm.hpp and the folds of etl/numeric.hpp is modelled loop by loop in Lean 4 over a list "
-              "`P ++ range ++ S` with every dereference checked to lie inside the range the algorithm was given. For the algorithms "
-              "listed in coverage.theorems the model is proved, for all element types, ranges, contexts, predicates, split points and "
-              "counts (no size bound), to return `.ok` (never touches anything outside the range) of exactly the declaratively "
-              "specified std result with the context unchanged. All algorithms (with or without a theorem) are tied to the current "
+              "`P ++ range ++ S` with every dereference checked to lie inside the range the algorithm was given. For every modelled "
+              "algorithm (coverage.theorems) the model is proved, for all element types, ranges, contexts, predicates, split points and "
+              "counts (no size bound), to return `.ok` (never touches anything outside the range; fuelled loops such as gnome_sort, "
+              "rotate, merge_sort terminate within their fuel) of exactly the declaratively specified std result with the context "
+              "unchanged: unstable sorts / partition = a sorted (partitioned) permutation, stable sorts and inplace_merge = the unique "
+              "stable sorted permutation (List.mergeSort / List.merge), set operations = the standard's multiplicity rules. Hypotheses "
+              "are the standard's preconditions only (comparator is a strict weak order, binary predicate of is_permutation an "
+              "equivalence, sorted / partitioned inputs for the binary searches, set operations and inplace_merge, non-overlap rule of "
+              "copy / copy_backward, room in the second range). All algorithms are tied to the current "
               "source on every run: model, implementation (ASan/UBSan, exact-size heap ranges, context sentinels, predicate-touch log, "
               "pointer/input/forward/bidirectional/output iterator wrappers) and libstdc++ are run on the same inputs, exhaustive over "
               "the property's own small box and random beyond; the spec is validated against libstdc++ on the same inputs.")
 LEVEL_NOTE = ("Trusted: Lean kernel + propext/Classical.choice/Quot.sound; the hand model's fidelity outside the explored inputs; "
-              "g++-12/ASan; libstdc++ as oracle for spec validation. Algorithms without a theorem yet are listed in evidence "
-              "coverage.correspondence_only and are covered by the differential run only. Complexity requirements of the standard "
+              "g++-12/ASan; libstdc++ as oracle for spec validation. No modelled algorithm is left without a theorem "
+              "(coverage.correspondence_only is empty). nth_element / partial_sort are proved to leave a fully sorted permutation "
+              "(what this library does), which implies the standard's weaker postconditions. Complexity requirements of the standard "
               "(e.g. partition_point is linear here) are outside the property and not checked.")
 # members modelled and compared on every run but without a Lean theorem yet
-CORRESPONDENCE_ONLY = [
-    "adjacent_find", "is_sorted", "is_sorted_until", "min_element", "max_element", "minmax_element", "binary_search",
-    "search", "find_end", "search_n", "is_permutation", "includes", "copy", "move", "copy_backward", "move_backward",
-    "unique_copy", "transform (binary)", "unique", "shift_left", "shift_right", "partition",
-    "sort", "gnome_sort", "bubble_sort", "exchange_sort", "nth_element", "partial_sort", "stable_sort", "insertion_sort",
-    "merge_sort", "inplace_merge", "set_difference", "set_intersection", "set_symmetric_difference", "set_union",
-    "partial_sum"]
+CORRESPONDENCE_ONLY = []
 # algorithms whose model is proved equal to the spec for all inputs (TetlProofs/C06/Props.lean)
 WITH_THEOREM = [
     "find", "find_if", "find_if_not", "all_of", "any_of", "none_of", "count", "count_if", "for_each", "for_each_n",
@@ -458,5 +490,12 @@ WITH_THEOREM = [
     "equal_range", "mismatch (3/4 iterators)", "equal (3 iterators, 4 iterators both branches)", "lexicographical_compare",
     "accumulate", "reduce", "transform_reduce (unary)", "min", "max", "minmax", "clamp", "remove", "remove_if", "fill", "fill_n",
     "generate", "generate_n", "iota", "replace", "replace_if", "swap_ranges",
-    "merge", "stable_partition", "inner_product", "transform_reduce (binary)", "adjacent_difference"]
+    "merge", "stable_partition", "inner_product", "transform_reduce (binary)", "adjacent_difference",
+    "copy", "move", "copy_backward", "move_backward", "shift_left (both branches)", "shift_right", "unique_copy", "unique",
+    "adjacent_find", "is_sorted_until", "is_sorted", "partition", "transform (binary)", "binary_search", "partial_sum",
+    "search", "find_end", "search_n",
+    "sort", "gnome_sort (incl. termination)", "nth_element", "partial_sort", "bubble_sort", "exchange_sort",
+    "stable_sort", "insertion_sort (stability)",
+    "min_element", "max_element", "minmax_element", "is_permutation (3/4 iterators)", "includes", "set_difference",
+    "set_intersection", "set_symmetric_difference", "set_union", "inplace_merge (stable merge)", "merge_sort (stability)"]
 UNPROVED_OBSERVED = ["complexity requirements of the standard (not part of the property; partition_point is linear here)"]
